@@ -8,7 +8,8 @@ def one(spec):
     parts = spec.split(":")
     pid, n = parts[0], parts[1]
     extra = parts[2].split(",") if len(parts) > 2 and parts[2] else []
-    src = f"/tmp/seed_{pid}_out/{n}"
+    rnd = os.environ.get("SEED_ROUND", "")          # "" = first round, "2" = second round ...
+    src = f"/tmp/seed{rnd}_{pid}_out/{n}"
     checks = [pid] + extra
     r = subprocess.run(["python3", "/verif/tools/seedtest.py", src, "--checks", ",".join(checks)], capture_output=True, text=True)
     try:
@@ -17,7 +18,7 @@ def one(spec):
         return spec, "ERROR " + (r.stdout + r.stderr)[-300:]
     if not res.get("confirmed"):
         return spec, "NOT CONFIRMED " + json.dumps(res)[:300]
-    dst = f"/verif/seeded/{pid}-{n}"
+    dst = f"/verif/seeded/{pid}-{n}" if not rnd else f"/verif/seeded/{pid}-r{rnd}-{n}"
     os.makedirs(dst, exist_ok=True)
     for f in ("patch.diff", "demo.py"):
         shutil.copy(os.path.join(src, f), os.path.join(dst, f))
